@@ -45,6 +45,9 @@ pub struct PairCfg {
     pub fast_timers: bool,
     /// small SCTP send buffer so that a sender can be blocked (BlockedSender scenarios)
     pub small_sctp_buffer: bool,
+    /// short ICE disconnect threshold / grace with the slow fallbacks (ICE connection timeout, SCTP heartbeat
+    /// limit) left far away: scenarios with a recoverable blackout
+    pub flap_timers: bool,
 }
 
 impl Default for PairCfg {
@@ -64,6 +67,7 @@ impl Default for PairCfg {
             reneg: "none".into(),
             fast_timers: false,
             small_sctp_buffer: false,
+            flap_timers: false,
         }
     }
 }
@@ -94,6 +98,7 @@ impl PairCfg {
         c.reneg = s("reneg", &c.reneg);
         c.fast_timers = b("fast_timers", c.fast_timers);
         c.small_sctp_buffer = b("small_sctp_buffer", c.small_sctp_buffer);
+        c.flap_timers = b("flap_timers", c.flap_timers);
         c
     }
 
@@ -183,6 +188,11 @@ impl PairCfg {
             c.sctp_rto_max = Duration::from_millis(400);
             c.sctp_max_association_retransmits = 4;
             c.sctp_max_heartbeat_failures = 2;
+        }
+        if self.flap_timers {
+            c.ice_disconnect_threshold = Duration::from_millis(2500);
+            c.ice_disconnect_grace = Duration::from_millis(2500);
+            c.ice_connection_timeout = Duration::from_secs(90);
         }
         if self.small_sctp_buffer {
             c.sctp_max_buffered_amount = 8 * 1024;
@@ -324,7 +334,15 @@ fn codec(kind: MediaKind) -> RtpCodecParameters {
 
 impl Side {
     pub fn new(label: &str, cfg: &PairCfg, mux_port: u16) -> Self {
-        let pc = PeerConnection::new(cfg.rtc_config(label, mux_port));
+        Self::new_on(label, cfg, mux_port, None)
+    }
+
+    /// `handle`: runtime on which ALL internal tasks of this connection run (RtcConfiguration::runtime_handle),
+    /// e.g. a single-worker runtime that the harness can freeze to play a blackout of this endpoint.
+    pub fn new_on(label: &str, cfg: &PairCfg, mux_port: u16, handle: Option<tokio::runtime::Handle>) -> Self {
+        let mut rc = cfg.rtc_config(label, mux_port);
+        rc.runtime_handle = handle;
+        let pc = PeerConnection::new(rc);
         let mut legs = vec![];
         for (on, kind, fk) in [
             (cfg.audio, MediaKind::Audio, FrameKind::Audio),
@@ -529,13 +547,18 @@ impl Pair {
     /// `pump_x = false`: no event pump on that side (the pump holds a clone of the handle, which
     /// would defeat a scenario in which the application drops the connection).
     pub fn new_with(cfg: &PairCfg, pump_a: bool, pump_b: bool) -> Self {
+        Self::new_on(cfg, pump_a, pump_b, None)
+    }
+
+    /// `handle_b`: B's internal tasks run on that runtime (see `Side::new_on`).
+    pub fn new_on(cfg: &PairCfg, pump_a: bool, pump_b: bool, handle_b: Option<tokio::runtime::Handle>) -> Self {
         let mux_port = match cfg.ice.as_str() {
             "udpmux" => free_udp_port(),
             "tcp" => free_tcp_port(),
             _ => 0,
         };
         let a = Arc::new(Side::new("A", cfg, mux_port));
-        let b = Arc::new(Side::new("B", cfg, mux_port));
+        let b = Arc::new(Side::new_on("B", cfg, mux_port, handle_b));
         if pump_a {
             a.start_event_pump();
         }
